@@ -58,6 +58,7 @@ class Verdict:
         for e, n in self.kf.values():
             print(f"KNOWN-FINDING: property={self.prop} {e['id']}: {e['description']} ({n} occurrences)")
         rc = 0
+        shutil.rmtree(os.path.join(WORK, self.prop, "replay"), ignore_errors=True)
         if self.viol:
             rc = 1
             d = os.path.join(WORK, self.prop, "replay")
